@@ -153,10 +153,23 @@ class Contract:
         self.flags = flags or []
         self.loops = loops or {}
         self.setup = setup or []
+        self.defines = []
+        self.partial = None    # description of the restricted input domain, if the obligation is partial-domain only
 
-    def split(self):
-        """one contract per lane post-condition (multiplicative obligations are discharged one lane per solver call)"""
+    def split(self, tier='thorough'):
+        """one contract per lane post-condition (multiplicative obligations are discharged one lane per solver call);
+        partial-domain division: one contract per constant divisor"""
         import copy
+        if getattr(self, 'div_consts', None):
+            out = []
+            for v, reqs in self.div_consts:
+                if tier == 'quick' and v not in self.div_quick:
+                    continue
+                c = copy.copy(self)
+                c.requires = list(self.requires) + reqs
+                c.part = 'd=%d' % v
+                out.append(c)
+            return out
         lane = [(l, e) for l, e in self.ensures if re.search(r'lane \d+$', l)]
         rest = [(l, e) for l, e in self.ensures if not re.search(r'lane \d+$', l)]
         if 'split' not in self.flags or len(lane) < 2:
@@ -174,15 +187,16 @@ class Contract:
         reqs = list(self.requires)
         for p, sz in self.fresh:
             reqs.append('__CPROVER_is_fresh(%s, %s)' % (p, sz))
-        if not reqs:
-            reqs = ['1']
+        # representation invariant of the ghost FP environment: rounding control lives in __CPROVER_rounding_mode only
+        reqs.append('(model_mxcsr & 0x6000u) == 0 && __CPROVER_rounding_mode >= 0 && __CPROVER_rounding_mode < 4')
         for r in reqs:
             out.append('__CPROVER_requires(%s)' % r)
         if not self.ensures:
             out.append('__CPROVER_ensures(1)')
         for lab, e in self.ensures:
             out.append('__CPROVER_ensures(%s) /* %s */' % (e, lab))
-        out.append('__CPROVER_assigns(%s)' % '; '.join(self.assigns))
+        out.append('__CPROVER_ensures(model_mxcsr == __CPROVER_old(model_mxcsr) && __CPROVER_rounding_mode == __CPROVER_old(__CPROVER_rounding_mode)) /* C11: floating-point environment left as found */')
+        out.append('__CPROVER_assigns(%s)' % '; '.join(list(self.assigns) + ['model_mxcsr', '__CPROVER_rounding_mode']))
         return '\n'.join(out) + '\n'
 
 
@@ -218,6 +232,9 @@ def eq_lane(t, lhs_e, i, spec):
     m = re.match(r'^spec_mul\((.*), (\d+)\)$', spec)
     if m:
         return 'spec_mul_ok(%s, %s, %s)' % (t.lane(lhs_e, i), m.group(1), m.group(2))
+    m = re.match(r'^spec_(u|s)(div|rem)\((.*), (\d+)\)$', spec)
+    if m:
+        return 'spec_div_ok(%s, %s, %s, %d, %d)' % (t.lane(lhs_e, i), m.group(3), m.group(4), 1 if m.group(1) == 's' else 0, 1 if m.group(2) == 'rem' else 0)
     return '%s == (%s)' % (t.lane(lhs_e, i), spec)
 
 
@@ -267,7 +284,7 @@ def compound_method(c, t, spec_of, props, family_name, cxx, req=None, per_lane_g
         ens.append(('%s lane %d' % (family_name, i), e))
     ens.append(('%s returns *this' % family_name, '%s == this' % RV))
     return Contract(family_name, props, requires=req or [], ensures=ens, assigns=['*this'],
-                    fresh=[('this', 'sizeof(*this)')], cxx=cxx, heavy=heavy, flags=flags)
+                    cxx=cxx, heavy=heavy, flags=flags)
 
 
 def scalar_props(t, vec_props):
@@ -309,7 +326,7 @@ def f_int_arith(c):
             return None
         sp = 'spec_neg(%s, %d)' if c.name == 'operator-' else 'spec_trunc(%s, %d)'
         ens = [('int unary %s lane %d' % (c.name, i), eq_lane(t, RV, i, sp % (t.lane('(*this)', i), t.bits))) for i in range(t.W)]
-        return Contract('int_unary_' + c.name, ['C01'], ensures=ens, assigns=[], fresh=[('this', 'sizeof(*this)')],
+        return Contract('int_unary_' + c.name, ['C01'], ensures=ens, assigns=[],
                         cxx='(%s{this})' % c.name[-1])
     if c.kind == 'method' and c.name in ('operator++', 'operator--') and c.OT and c.OT.kind == 'vec' and c.OT.isint:
         t = c.OT
@@ -323,7 +340,7 @@ def f_int_arith(c):
             ens += [('post-form returns the old value lane %d' % i, eq_lane(t, RV, i, OLD(t.lane('(*this)', i)))) for i in range(t.W)]
             cxx = '({this}%s)' % c.name[-2:]
         return Contract('int_' + c.name + ('_post' if c.P else '_pre'), ['C01'], ensures=ens, assigns=['*this'],
-                        fresh=[('this', 'sizeof(*this)')], cxx=cxx)
+                        cxx=cxx)
     return None
 
 
@@ -586,6 +603,28 @@ def div_guard(t, x, y, i):
     return 'spec_div_defined(%s, %s, %d, %d)' % (t.lane(x, i), t.lane(y, i), t.bits, t.signed)
 
 
+def div_lattice(t):
+    b = t.bits
+    vals = [1, 2, 3, 5, 7, 10, 1 << (b - 1), (1 << (b - 1)) + 1, (1 << b) - 1, (1 << b) - 2, (1 << (b - 1)) - 1]
+    if t.signed:
+        vals += [(1 << b) - 3, (1 << b) - 7, (1 << b) - 10]
+    return sorted(set(v & ((1 << b) - 1) for v in vals))
+
+
+def div_mode(k, t, ylane):
+    """width-1 vectors route to the hardware divider: uninterpreted-division mode (full domain, routing proof).
+    SIMD emulations (shift-subtract, FP division) are beyond SAT for symbolic divisors: PARTIAL DOMAIN -- all dividends,
+    divisors of every lane drawn from a fixed lattice -- reported as partial, never as proved."""
+    if t.W == 1:
+        k.defines = ['AVM_DIV_UF']
+        return k
+    lat = div_lattice(t)
+    k.div_consts = [(v, ['%s == %dull' % (ylane(i), v) for i in range(t.W)]) for v in lat]
+    k.div_quick = {3, (1 << (t.bits - 1)) + 1, (1 << t.bits) - 1}
+    k.partial = 'one obligation per divisor d in the lattice {%s} (mod 2^%d), every lane dividing by d; all dividends' % (', '.join(str(v) for v in lat), t.bits)
+    return k
+
+
 @family
 def f_div(c):
     if c.kind == 'function' and c.name == 'div' and len(c.P) == 2:
@@ -599,20 +638,20 @@ def f_div(c):
         ens = []
         for i in range(t.W):
             g = div_guard(t, x, y, i)
-            ens.append(('div quot lane %d' % i, '!%s || %s == %s(%s, %s, %d)' % (g, t.lane('(%s).quot' % RV, i), dq, t.lane(x, i), t.lane(y, i), t.bits)))
-            ens.append(('div rem lane %d' % i, '!%s || %s == %s(%s, %s, %d)' % (g, t.lane('(%s).rem' % RV, i), dr, t.lane(x, i), t.lane(y, i), t.bits)))
+            ens.append(('div quot lane %d' % i, '!%s || %s' % (g, eq_lane(t, '(%s).quot' % RV, i, '%s(%s, %s, %d)' % (dq, t.lane(x, i), t.lane(y, i), t.bits)))))
+            ens.append(('div rem lane %d' % i, '!%s || %s' % (g, eq_lane(t, '(%s).rem' % RV, i, '%s(%s, %s, %d)' % (dr, t.lane(x, i), t.lane(y, i), t.bits)))))
         req = [div_guard(t, x, y, 0)] if t.W == 1 else []
-        return Contract('int_div', ['C05'], requires=req, ensures=ens, cxx='avel::div({0}, {1})', flags=['div'])
+        return div_mode(Contract('int_div', ['C05'], requires=req, ensures=ens, cxx='avel::div({0}, {1})', flags=['div']), t, lambda i: t.lane(y, i))
     if c.kind == 'method' and c.name in ('operator/=', 'operator%=') and c.OT and c.OT.kind == 'vec' and c.OT.isint and len(c.P) == 1 and c.PT[0].ct == c.OT.ct:
         t = c.OT
         this = '(*this)'
         quot = c.name == 'operator/='
         sp = ('spec_sdiv' if quot else 'spec_srem') if t.signed else ('spec_udiv' if quot else 'spec_urem')
         req = [div_guard(t, this, c.a(0), 0)] if t.W == 1 else []
-        return compound_method(c, t, lambda i: '%s(%s, %s, %d)' % (sp, OLD(t.lane(this, i)), t.lane(c.a(0), i), t.bits), ['C05'], 'int_' + c.name,
+        return div_mode(compound_method(c, t, lambda i: '%s(%s, %s, %d)' % (sp, OLD(t.lane(this, i)), t.lane(c.a(0), i), t.bits), ['C05'], 'int_' + c.name,
                                '({this} %s {0})' % c.name[8:], req=req,
                                per_lane_guard=lambda i: 'spec_div_defined(%s, %s, %d, %d)' % (OLD(t.lane(this, i)), t.lane(c.a(0), i), t.bits, t.signed),
-                               flags=['div'])
+                               flags=['div']), t, lambda i: t.lane(c.a(0), i))
     if c.kind == 'function' and c.name in ('operator/', 'operator%') and len(c.P) == 2:
         t = same_vec_params(c, 2)
         if not t or t.kind != 'vec' or not t.isint or c.RT.ct != t.ct:
@@ -620,8 +659,8 @@ def f_div(c):
         quot = c.name == 'operator/'
         sp = ('spec_sdiv' if quot else 'spec_srem') if t.signed else ('spec_udiv' if quot else 'spec_urem')
         req = [div_guard(t, c.a(0), c.a(1), 0)] if t.W == 1 else []
-        return lanewise_fn(c, t, lambda i: '%s(%s, %s, %d)' % (sp, t.lane(c.a(0), i), t.lane(c.a(1), i), t.bits), ['C05'], 'int_' + c.name,
-                           '({0} %s {1})' % c.name[8:], req=req, per_lane_guard=lambda i: div_guard(t, c.a(0), c.a(1), i), flags=['div'])
+        return div_mode(lanewise_fn(c, t, lambda i: '%s(%s, %s, %d)' % (sp, t.lane(c.a(0), i), t.lane(c.a(1), i), t.bits), ['C05'], 'int_' + c.name,
+                           '({0} %s {1})' % c.name[8:], req=req, per_lane_guard=lambda i: div_guard(t, c.a(0), c.a(1), i), flags=['div']), t, lambda i: t.lane(c.a(1), i))
     return None
 
 
@@ -808,6 +847,76 @@ def f_memory(c):
 
 
 @family
+def f_gather_scatter(c):
+    if c.kind != 'function' or c.name not in ('gather', 'scatter'):
+        return None
+    P = c.P
+    if c.name == 'gather':
+        if len(P) < 2 or not elem_of_ptr(P[0]['ctype']) or c.PT[1].kind != 'vec' or not c.RT or c.RT.kind != 'vec':
+            return None
+        t, it = c.RT, c.PT[1]
+        ect = elem_of_ptr(P[0]['ctype'])
+        if ect != t.cscalar or it.W != t.W or not it.isint:
+            return None
+        p, idx = P[0]['name'], c.a(1)
+        if len(P) == 3 and P[2]['ctype'] == 'uint32_t':
+            nn, n_expr, args, cxx = P[2]['name'], 'nondet_u32()', ['buf', 'a1', 'n_in'], 'avel::gather<%s>({0}, {1}, {2})' % t.cxx()
+        elif len(P) == 2 and c.targs and isinstance(c.targs[-1], int):
+            N = c.targs[-1]
+            nn, n_expr, args, cxx = '%du' % N, '%du' % N, ['buf', 'a1'], 'avel::gather<%s, %d>({0}, {1})' % (t.cxx(), N)
+        else:
+            return None
+        vt = None
+    else:
+        if len(P) < 3 or not elem_of_ptr(P[0]['ctype']) or c.PT[1].kind != 'vec' or c.PT[2].kind != 'vec' or c.fn['ret'] != 'void':
+            return None
+        t, it = c.PT[1], c.PT[2]
+        ect = elem_of_ptr(P[0]['ctype'])
+        if ect != t.cscalar or it.W != t.W or not it.isint:
+            return None
+        p, v, idx = P[0]['name'], c.a(1), c.a(2)
+        if len(P) == 4 and P[3]['ctype'] == 'uint32_t':
+            nn, n_expr, args, cxx = P[3]['name'], 'nondet_u32()', ['buf', 'a1', 'a2', 'n_in'], 'avel::scatter({0}, {1}, {2}, {3})'
+        elif len(P) == 3 and c.targs and isinstance(c.targs[0], int):
+            N = c.targs[0]
+            nn, n_expr, args, cxx = '%du' % N, '%du' % N, ['buf', 'a1', 'a2'], 'avel::scatter<%d>({0}, {1}, {2})' % N
+        else:
+            return None
+    W = t.W
+    L = W + 1
+    cnt = '(%s < %du ? %s : %du)' % (nn, W, nn, W)
+    sidx = lambda i: 'spec_sx(%s, %d)' % (it.lane(idx, i), it.bits)
+    act = lambda i: '(%du < %s)' % (i, cnt)
+    req = ['avm_len <= %d' % L] if c.name == 'gather' else ['avm_len == %d' % L]
+    req += ['!%s || (%s >= 0 && %s < (int64_t)avm_len)' % (act(i), sidx(i), sidx(i)) for i in range(W)]
+    # gather: the object has a symbolic number of elements (an unneeded read of a low element fails when the object is
+    # shorter); scatter: a fixed W+1 elements, every one of which must keep its value unless addressed
+    pre = ['%s init[%d];' % (ect, L), 'size_t len_in = %s;' % ('nondet_sz()' if c.name == 'gather' else '%d' % L),
+           '__CPROVER_assume(len_in <= %d);' % L, 'avm_len = len_in;',
+           '%s* buf = malloc(len_in * sizeof(%s));' % (ect, ect), '__CPROVER_assume(buf != 0);',
+           'for (int i = 0; i < %d; i++) if ((size_t)i < len_in) buf[i] = init[i];' % L,
+           'uint32_t n_in = %s;' % n_expr]
+    if c.name == 'gather':
+        ens = [('gather lane %d' % i, '%s == (%s ? %s : 0)' % (t.lane(RV, i), act(i), bits_of(ect, '%s[%s]' % (p, sidx(i))))) for i in range(W)]
+        k = Contract('mem_gather' + ('_n' if len(P) == 3 else '_N'), ['C08', 'C09'], requires=req, ensures=ens, assigns=[], cxx=None)
+        k.harness = {'pre': pre + ['%s a1;' % it.ct], 'args': args}
+        return k
+    # scatter: active indices pairwise distinct (the property is silent about duplicates)
+    for i in range(W):
+        for j in range(i + 1, W):
+            req.append('!(%s && %s) || %s != %s' % (act(i), act(j), sidx(i), sidx(j)))
+    ens = [('scatter element of lane %d' % i, '!%s || %s == %s' % (act(i), bits_of(ect, '%s[%s]' % (p, sidx(i))), t.lane(v, i))) for i in range(W)]
+    for j in range(L):
+        hit = ' || '.join('(%s && %s == %d)' % (act(i), sidx(i), j) for i in range(W))
+        ens.append(('scatter leaves element %d untouched unless addressed' % j, '%s || %s == %s' % (
+            hit, bits_of(ect, '%s[%d]' % (p, j)), bits_of(ect, OLD('%s[%d]' % (p, j))))))
+    k = Contract('mem_scatter' + ('_n' if len(P) == 4 else '_N'), ['C08', 'C09'], requires=req, ensures=ens,
+                 assigns=['__CPROVER_object_whole(%s)' % p], cxx=None)
+    k.harness = {'pre': pre + ['%s a1;' % t.ct, '%s a2;' % it.ct], 'args': args}
+    return k
+
+
+@family
 def f_array_ctor(c):
     if c.kind == 'ctor' and c.OT and c.OT.kind == 'vec' and len(c.P) == 1:
         ct = c.P[0]['ctype'].rstrip('*')
@@ -817,6 +926,173 @@ def f_array_ctor(c):
             ens = [('Vector(array) lane %d' % i, '%s == %s' % (t.lane(RV, i), bits_of(t.cscalar, '(%s)._M_elems[%d]' % (c.a(0), i)))) for i in range(t.W)]
             return Contract('vec_from_array', ['C08'], ensures=ens, cxx='%s({0})' % t.cxx())
     return None
+
+
+
+# --------------------------------------------------------------------------------------------
+# C10 .. C13  floating point (vectors and the scalar overloads; scalars also belong to C16)
+# --------------------------------------------------------------------------------------------
+RM_SETUP = ['int rm_in = nondet_i32();', '__CPROVER_assume(rm_in >= 0 && rm_in < 4);', '__CPROVER_rounding_mode = rm_in;']
+
+
+def fsuf(t):
+    return '32' if t.bits == 32 else '64'
+
+
+def fval(t, e, i):
+    return t.flane(e, i)
+
+
+def same_bits(t, a, b):
+    return 'spec_same%s((uint%s_t)%s, (uint%s_t)%s)' % (fsuf(t), fsuf(t), a, fsuf(t), b)
+
+
+def fbits(t, fexpr):
+    return '(uint64_t)%s(%s)' % ('spec_f2u' if t.bits == 32 else 'spec_d2u', fexpr)
+
+
+FARITH = {'operator+=': '+', 'operator-=': '-', 'operator*=': '*', 'operator/=': '/'}
+FARITH_BIN = {'operator+': '+', 'operator-': '-', 'operator*': '*', 'operator/': '/'}
+
+
+@family
+def f_float_arith(c):
+    if c.kind == 'method' and c.OT and c.OT.kind == 'vec' and c.OT.isfloat:
+        t = c.OT
+        this = '(*this)'
+        if c.name in FARITH and len(c.P) == 1 and c.PT[0].ct == t.ct:
+            op = FARITH[c.name]
+            ens = []
+            for i in range(t.W):
+                exp = fbits(t, '%s %s %s' % (('avm_u2f' if t.bits == 32 else 'avm_u2d') + '(' + OLD(t.lane(this, i).replace('(uint64_t)', '', 1)) + ')', op, fval(t, c.a(0), i)))
+                ens.append(('float %s lane %d' % (c.name, i), same_bits(t, t.lane(this, i), exp)))
+            ens.append(('returns *this', '%s == this' % RV))
+            k = Contract('float_' + c.name, ['C10'], ensures=ens, assigns=['*this'], cxx='({this} %s= {0})' % op, setup=RM_SETUP,
+                         flags=['split', 'mul'] if op in '*/' and t.W > 1 else [])
+            return k
+        if c.name == 'operator-' and len(c.P) == 0 and c.RT.ct == t.ct:
+            sb = '0x80000000ull' if t.bits == 32 else '0x8000000000000000ull'
+            ens = [('float unary minus flips exactly the sign bit, lane %d' % i, '%s == (%s ^ %s)' % (t.lane(RV, i), t.lane(this, i), sb)) for i in range(t.W)]
+            return Contract('float_neg', ['C10'], ensures=ens, cxx='(-{this})')
+        if c.name in ('operator++', 'operator--'):
+            op = '+' if c.name == 'operator++' else '-'
+            one = '1.0f' if t.bits == 32 else '1.0'
+            ens = []
+            for i in range(t.W):
+                oldv = ('avm_u2f' if t.bits == 32 else 'avm_u2d') + '(' + OLD(t.lane(this, i).replace('(uint64_t)', '', 1)) + ')'
+                ens.append(('float %s lane %d' % (c.name, i), same_bits(t, t.lane(this, i), fbits(t, '%s %s %s' % (oldv, op, one)))))
+                if c.P:
+                    ens.append(('post-form returns the old value lane %d' % i, '%s == %s' % (t.lane(RV, i), OLD(t.lane(this, i).replace('(uint64_t)', '', 1)))))
+            if not c.P:
+                ens.append(('pre-form returns *this', '%s == this' % RV))
+            return Contract('float_' + c.name + ('_post' if c.P else '_pre'), ['C10'], ensures=ens, assigns=['*this'],
+                            cxx=('({this}%s)' if c.P else '(%s{this})') % c.name[-2:], setup=RM_SETUP)
+        return None
+    if c.kind != 'function' or not c.P:
+        return None
+    t = c.PT[0]
+    if t.kind not in ('vec', 'scalar') or not t.isfloat or any(p['ref'] for p in c.P):
+        return None
+    sc = ['C16'] if t.kind == 'scalar' else []
+    nm = c.name
+    a0 = c.a(0)
+    if t.kind == 'vec' and nm in FARITH_BIN and len(c.P) == 2 and c.PT[1].ct == t.ct and c.RT.ct == t.ct:
+        op = FARITH_BIN[nm]
+        ens = [('float %s lane %d' % (nm, i), same_bits(t, t.lane(RV, i), fbits(t, '%s %s %s' % (fval(t, a0, i), op, fval(t, c.a(1), i))))) for i in range(t.W)]
+        return Contract('float_' + nm, ['C10'], ensures=ens, cxx='({0} %s {1})' % op, setup=RM_SETUP,
+                        flags=['split', 'mul'] if op in '*/' and t.W > 1 else [])
+    if nm == 'sqrt' and len(c.P) == 1 and c.RT.ct == t.ct:
+        fn = 'avm_sqrtf' if t.bits == 32 else 'avm_sqrt'
+        ens = [('sqrt lane %d' % i, same_bits(t, t.lane(RV, i), fbits(t, '%s(%s)' % (fn, fval(t, a0, i))))) for i in range(t.W)]
+        return Contract('float_sqrt', ['C10'] + sc, ensures=ens, cxx='avel::sqrt({0})', setup=RM_SETUP)
+    # ---- C11
+    if nm in ('ceil', 'floor', 'trunc', 'round', 'nearbyint', 'rint') and len(c.P) == 1 and c.RT.ct == t.ct:
+        sp = 'spec_%s%s' % ('nearbyint' if nm == 'rint' else nm, fsuf(t))
+        ens = [('%s lane %d' % (nm, i), 'spec_numeq%s(%s, %s(%s))' % (fsuf(t), fval(t, RV, i), sp, fval(t, a0, i))) for i in range(t.W)]
+        return Contract('float_' + nm, ['C11'] + sc, ensures=ens, cxx='avel::%s({0})' % nm, setup=RM_SETUP)
+    # ---- C13
+    CLS = {'isnan': 'spec_isnan', 'isinf': 'spec_isinf', 'isfinite': 'spec_isfinite', 'isnormal': 'spec_isnormal', 'signbit': 'spec_signbit'}
+    if nm in CLS and len(c.P) == 1 and c.RT.kind in ('mask', 'bool'):
+        sp = CLS[nm] + fsuf(t)
+        ens = ([('mask well-formed', c.RT.wf(RV))] if c.RT.kind == 'mask' else [])
+        ens += [('%s lane %d' % (nm, i), '%s == (_Bool)%s(%s)' % (c.RT.view(RV, i), sp, t.lane(a0, i).replace('(uint64_t)', '(uint%s_t)' % fsuf(t), 1))) for i in range(t.W)]
+        return Contract('float_' + nm, ['C13'] + sc, ensures=ens, cxx='avel::%s({0})' % nm)
+    if nm == 'fpclassify' and len(c.P) == 1 and c.RT.elem and c.RT.isint and c.RT.W == t.W:
+        r = c.RT
+        ens = [('fpclassify lane %d' % i, 'spec_sx(%s, %d) == (int64_t)spec_fpclassify%s(%s)' % (r.lane(RV, i), r.bits, fsuf(t), t.lane(a0, i).replace('(uint64_t)', '(uint%s_t)' % fsuf(t), 1))) for i in range(t.W)]
+        return Contract('float_fpclassify', ['C13'] + sc, ensures=ens, cxx='avel::fpclassify({0})')
+    QC = {'isgreater': '>', 'isgreaterequal': '>=', 'isless': '<', 'islessequal': '<=', 'islessgreater': None, 'isunordered': None}
+    if nm in QC and len(c.P) == 2 and c.PT[1].ct == t.ct and c.RT.kind in ('mask', 'bool'):
+        ens = ([('mask well-formed', c.RT.wf(RV))] if c.RT.kind == 'mask' else [])
+        for i in range(t.W):
+            x, y = fval(t, a0, i), fval(t, c.a(1), i)
+            if nm == 'islessgreater':
+                e = '(%s < %s || %s > %s)' % (x, y, x, y)
+            elif nm == 'isunordered':
+                e = '(%s != %s || %s != %s)' % (x, x, y, y)
+            else:
+                e = '(%s %s %s)' % (x, QC[nm], y)
+            ens.append(('%s lane %d' % (nm, i), '%s == (_Bool)%s' % (c.RT.view(RV, i), e)))
+        return Contract('float_' + nm, ['C13'] + sc, ensures=ens, cxx='avel::%s({0}, {1})' % nm)
+    # ---- C07 (float part): sign-bit operations and min/max/clamp for non-NaN operands
+    sb = '0x80000000ull' if t.bits == 32 else '0x8000000000000000ull'
+    if nm in ('abs', 'neg_abs') and len(c.P) == 1 and c.RT.ct == t.ct:
+        e = (lambda i: '(%s & ~%s)' % (t.lane(a0, i), sb)) if nm == 'abs' else (lambda i: '(%s | %s)' % (t.lane(a0, i), sb))
+        return lanewise_fn(c, t, e, ['C07'] + sc, 'float_' + nm, 'avel::%s({0})' % nm)
+    if nm == 'copysign' and len(c.P) == 2 and c.PT[1].ct == t.ct and c.RT.ct == t.ct:
+        return lanewise_fn(c, t, lambda i: '((%s & ~%s) | (%s & %s))' % (t.lane(a0, i), sb, t.lane(c.a(1), i), sb), ['C07'] + sc, 'float_copysign', 'avel::copysign({0}, {1})')
+    if nm in ('min', 'max') and len(c.P) == 2 and c.PT[1].ct == t.ct and c.RT.ct == t.ct:
+        ok = 'spec_f%s_ok%s' % (nm, fsuf(t))
+        ens = []
+        for i in range(t.W):
+            x, y = t.lane(a0, i), t.lane(c.a(1), i)
+            nonan = '(!spec_isnan%s(%s) && !spec_isnan%s(%s))' % (fsuf(t), x, fsuf(t), y)
+            ens.append(('float %s lane %d (non-NaN operands)' % (nm, i), '!%s || %s(%s, %s, %s)' % (nonan, ok, t.lane(RV, i), x, y)))
+        return Contract('float_' + nm, ['C07'] + sc, ensures=ens, cxx='avel::%s({0}, {1})' % nm)
+    if nm == 'clamp' and len(c.P) == 3 and c.RT.ct == t.ct:
+        ens = []
+        for i in range(t.W):
+            x, lo, hi = fval(t, a0, i), fval(t, c.a(1), i), fval(t, c.a(2), i)
+            dom = '(%s == %s && %s < %s)' % (x, x, lo, hi)
+            ens.append(('float clamp lane %d (non-NaN, lo < hi)' % i, '!%s || %s == (%s < %s ? %s : (%s > %s ? %s : %s))' % (dom, fval(t, RV, i), x, lo, lo, x, hi, hi, x)))
+        return Contract('float_clamp', ['C07'] + sc, ensures=ens, cxx='avel::clamp({0}, {1}, {2})')
+    # ---- C12
+    if nm in ('fmax', 'fmin', 'fdim') and len(c.P) == 2 and c.PT[1].ct == t.ct and c.RT.ct == t.ct:
+        ok = 'spec_%s_ok%s' % (nm, fsuf(t))
+        ens = [('%s lane %d' % (nm, i), '%s(%s, %s, %s)' % (ok, t.lane(RV, i), t.lane(a0, i), t.lane(c.a(1), i))) for i in range(t.W)]
+        return Contract('float_' + nm, ['C12'] + sc, ensures=ens, cxx='avel::%s({0}, {1})' % nm, setup=RM_SETUP if nm == 'fdim' else None)
+    if nm == 'frac' and len(c.P) == 1 and c.RT.ct == t.ct:
+        ens = [('frac lane %d' % i, 'spec_frac_ok%s(%s, %s)' % (fsuf(t), t.lane(RV, i), t.lane(a0, i))) for i in range(t.W)]
+        return Contract('float_frac', ['C12'] + sc, ensures=ens, cxx='avel::frac({0})', setup=RM_SETUP)
+    if nm == 'ilogb' and len(c.P) == 1 and c.RT.elem and c.RT.isint and c.RT.W == t.W:
+        r = c.RT
+        ens = [('ilogb lane %d' % i, 'spec_sx(%s, %d) == (int64_t)spec_ilogb%s(%s)' % (r.lane(RV, i), r.bits, fsuf(t), t.lane(a0, i))) for i in range(t.W)]
+        return Contract('float_ilogb', ['C12'] + sc, ensures=ens, cxx='avel::ilogb({0})')
+    if nm == 'logb' and len(c.P) == 1 and c.RT.ct == t.ct:
+        ens = [('logb lane %d' % i, 'spec_logb_ok%s(%s, %s)' % (fsuf(t), t.lane(RV, i), t.lane(a0, i))) for i in range(t.W)]
+        return Contract('float_logb', ['C12'] + sc, ensures=ens, cxx='avel::logb({0})')
+    if nm in ('ldexp', 'scalbn') and len(c.P) == 2 and c.RT.ct == t.ct and c.PT[1].elem and c.PT[1].isint and c.PT[1].W == t.W and t.bits == 32:
+        et = c.PT[1]
+        ens = [('%s lane %d' % (nm, i), 'spec_ldexp_ok32(%s, %s, (int32_t)spec_sx(%s, %d))' % (t.lane(RV, i), t.lane(a0, i), et.lane(c.a(1), i), et.bits)) for i in range(t.W)]
+        return Contract('float_' + nm, ['C12'] + sc, ensures=ens, cxx='avel::%s({0}, {1})' % nm, setup=RM_SETUP)
+    return None
+
+
+@family
+def f_frexp(c):
+    if c.kind != 'function' or c.name != 'frexp' or len(c.P) != 2 or not c.P[1]['ctype'].endswith('*'):
+        return None
+    t = c.PT[0]
+    if t.kind not in ('vec', 'scalar') or not t.isfloat or c.RT.ct != t.ct:
+        return None
+    et = T(c.P[1]['ctype'][:-1], c.S)
+    if not et.elem or not et.isint or et.W != t.W:
+        return None
+    e = '(*%s)' % c.P[1]['name']
+    ens = [('frexp lane %d' % i, 'spec_frexp_ok%s(%s, (int32_t)spec_sx(%s, %d), %s)' % (fsuf(t), t.lane(RV, i), et.lane(e, i), et.bits, t.lane(c.a(0), i))) for i in range(t.W)]
+    k = Contract('float_frexp', ['C12'] + (['C16'] if t.kind == 'scalar' else []), ensures=ens, assigns=['*%s' % c.P[1]['name']], cxx=None)
+    k.harness = {'pre': ['%s a0;' % t.ct, '%s e_out;' % et.ct], 'args': ['a0', '&e_out']}
+    return k
 
 
 def contract_for(fn, db):
@@ -858,6 +1134,10 @@ PROPERTY_NAMES = {
     'C04': set(BITOPS) | set(BITOPS_BIN) | {'operator~', 'operator<<=', 'operator>>=', 'operator<<', 'operator>>', 'bit_shift_left', 'bit_shift_right', 'rotl', 'rotr'},
     'C05': {'div', 'operator/=', 'operator%=', 'operator/', 'operator%'},
     'C06': set(BITFN) | {'has_single_bit'},
+    'C10': {'sqrt'},
+    'C11': {'ceil', 'floor', 'trunc', 'round', 'nearbyint', 'rint'},
+    'C12': {'frexp', 'ldexp', 'scalbn', 'ilogb', 'logb', 'frac', 'fmax', 'fmin', 'fdim'},
+    'C13': {'fpclassify', 'isnan', 'isinf', 'isfinite', 'isnormal', 'signbit', 'isgreater', 'isgreaterequal', 'isless', 'islessequal', 'islessgreater', 'isunordered'},
     'C08': {'load', 'aligned_load', 'store', 'aligned_store', 'gather', 'scatter', 'to_array', 'extract', 'insert'},
     'C09': {'load', 'aligned_load', 'store', 'aligned_store', 'gather', 'scatter'},
     'C07': {'blend', 'keep', 'clear', 'negate', 'min', 'max', 'minmax', 'clamp', 'abs', 'neg_abs', 'average', 'midpoint', 'copysign'},
